@@ -3,7 +3,7 @@
 Design model: spec/Views.tla (Canon, ViewOf, SameLinks/SameInfo/SameObject, SearchReaches) on top of
 spec/Links.tla, checked by TLC through MC_C06 for every enumerated link entry, search string and content tree x
 protocol view, once per advertised port (EntriesAgree, SearchesArrive, TreesAgree, with the named deviations
-EmptySelectorHref, FormDecodeReplace, PlusFlagAmbiguity).
+PlusFlagAmbiguity; DefaultPort70, EmptySelectorHref and FormDecodeReplace were found here and are repaired in /repo).
 B2: what TLC enumerated is what the real server is run on: the entries become a UMN .Links file, the trees are
 materialised, the search strings are typed into a PYG search item through each protocol's own mechanism.
 B3: per site and protocol view a trace (reference observations through plain Gopher, then the same selectors
